@@ -572,6 +572,7 @@ def run(R):
     diag_conversions(R, ro, "C20.DIAG-SAFE")
     common.typed_stack_elements(R, ro, "C20.DIAG-SAFE")
     dump_bounded(R, ro, "C20.DUMP-BOUNDED")
+    common.dependency_elements_typed(R, ro, "C20.DIAG-SAFE")
     perf_record_ready(R, ro, "C20.PERF-RECORD")
     # diagnostic callees defined in the repository are themselves diagnostic-only
     for mq in ("async_task.AsyncTask.collect_perf_stats", "async_task.AsyncTask.dump_perf_stats", "batching.BatchBase.dump_perf_stats", "async_task.AsyncTask.to_str", "batching.BatchItemBase.to_str"):
@@ -639,10 +640,22 @@ def run(R):
     R.require_min("C20.NARROW", 3)
 
 
+COMPLEX_ASSERTION_SITES = {
+    "async_task.AsyncTask.__init__": "the generator argument is produced by the decorators, never by the program",
+}
+
+
 def semantic_option(R, ro, f, node, name, pol, site, key):
     if name == "ENABLE_COMPLEX_ASSERTIONS":
         on = node.body if pol else node.orelse
         off = node.orelse if pol else node.body
+        # the confirmed site: the check of the generator object the decorators hand to AsyncTask's constructor - an object no program
+        # makes itself.  An assertion about something the program supplies (the argument of result(), the batch an item is created
+        # for) fails programs with the option on that run on silently with it off, whatever predicate it uses: it may not be gated
+        R.check(f.qualname in COMPLEX_ASSERTION_SITES, "C20.SEMANTIC", key + ":site", site,
+                "ENABLE_COMPLEX_ASSERTIONS gates an assertion at a confirmed site (%s)" % COMPLEX_ASSERTION_SITES.get(f.qualname, ""),
+                "%s puts an assertion about its caller's input under ENABLE_COMPLEX_ASSERTIONS: with the option on the program fails with AssertionError "
+                "there, with it off it runs on (and completes with a different value) - the option changes what the program observes" % f.qualname)
         ok = all(isinstance(s, ast.Assert) for s in on) and not off
         R.check(ok, "C20.SEMANTIC", key, site, "ENABLE_COMPLEX_ASSERTIONS guards only assert statements",
                 "ENABLE_COMPLEX_ASSERTIONS guards more than assertions in %s" % f.qualname)
